@@ -48,8 +48,8 @@ Definition partition_okb (inputs : list bytes) (hs : list hunk) : bool :=
              (combine (seq 0 (length inputs)) inputs).
 
 (** No hunk is empty on every side. *)
-Definition nonempty_okb (hs : list hunk) : bool :=
-  forallb (fun h => negb (all_emptyb (snd h))) hs.
+Definition nonempty_okb (inputs : list bytes) (hs : list hunk) : bool :=
+  forallb (fun h => existsb (fun x => negb (is_nil x)) (contents inputs (snd h))) hs.
 
 (** Matching and Different hunks never appear twice in a row. *)
 Fixpoint alternate_okb (hs : list hunk) : bool :=
@@ -77,7 +77,7 @@ Definition matching_okb (c : comparator) (inputs : list bytes) (hs : list hunk) 
                        end) hs.
 
 Definition hunks_okb (s : steps) (inputs : list bytes) (hs : list hunk) : bool :=
-  partition_okb inputs hs && nonempty_okb hs && alternate_okb hs
+  partition_okb inputs hs && nonempty_okb inputs hs && alternate_okb hs
   && match uniform_cmp s with Some c => matching_okb c inputs hs | None => true end.
 
 (** A raw matching is in range, strictly increasing in both coordinates and token-equal. *)
